@@ -30,16 +30,18 @@ Definition model_assort (con : contest_id) (k : akind) : card -> Q :=
 Definition model_ub (k : akind) : Q := match k with APl _ _ => ub_pl | ASm f _ _ => ub_sm f end.
 
 Definition oclose_q (m : Q) (o : option Q) : bool := match o with Some v => close_q m v | None => false end.
-(* numeric closeness, and on which side of 1/2 the mean lies unless the model's value is within 2^-20 of 1/2
-   (plurality means are k/(2n): never that close without being equal) *)
+(* numeric closeness, and on which side of 1/2 the mean lies.  Plurality means are k/(2n) computed without
+   rounding error that could cross 1/2: the side is compared exactly.  Super-majority values 1/(2f) are rounded
+   doubles: the side is compared unless the model's mean is within 2^-20 of 1/2 *)
 Definition gt_half (x : Xq) : bool := xlt (Fin (1 # 2)) x.
 Definition near_half (x : Xq) : bool :=
-  match x with Fin q => Qlt_bool (Qabsb (q - (1 # 2))) (mkq 1 1048576) && negb (Qeq_bool q (1 # 2)) | _ => false end.
-Definition oclose_mean (m : Xq) (o : option Xq) : bool :=
+  match x with Fin q => Qlt_bool (Qabsb (q - (1 # 2))) (mkq 1 1048576) | _ => false end.
+Definition oclose_mean (exact : bool) (m : Xq) (o : option Xq) : bool :=
   match o with
-  | Some v => close_x m v && (near_half m || Bool.eqb (gt_half m) (gt_half v))
+  | Some v => close_x m v && ((negb exact && near_half m) || Bool.eqb (gt_half m) (gt_half v))
   | None => false
   end.
+Definition is_pl (k : akind) : bool := match k with APl _ _ => true | _ => false end.
 Definition oclose_x (m : Xq) (o : option Xq) : bool := match o with Some v => close_x m v | None => false end.
 
 Definition agree_obs (con : contest_id) (cs : list card) (o : a_obs) : bool :=
@@ -48,8 +50,8 @@ Definition agree_obs (con : contest_id) (cs : list card) (o : a_obs) : bool :=
   let mu := set_margin_from_cvrs (o_polling o) (o_style o) con a ub cs in
   all2 oclose_q (map a cs) (o_vals o)
   && close_q ub (o_ub o)
-  && oclose_mean (mean true con a cs) (o_mean_style o)
-  && oclose_mean (mean false con a cs) (o_mean_all o)
+  && oclose_mean (is_pl (o_kind o)) (mean true con a cs) (o_mean_style o)
+  && oclose_mean (is_pl (o_kind o)) (mean false con a cs) (o_mean_all o)
   && oclose_x (fst mu) (o_margin o) && oclose_x (snd mu) (o_u o).
 Definition agree_a (c : a_case) : bool := forallb (agree_obs (a_con c) (a_cards c)) (a_observed c).
 Definition show_a (c : a_case) :=
